@@ -138,6 +138,9 @@ func genC15(g GenCtx) interface{} {
 	sc.Filter = randFilter(rng)
 	nw := 1 + rng.Intn(2)
 	nkeys := 1 + rng.Intn(3)
+	if rng.Intn(4) == 0 {
+		nkeys = 4 + rng.Intn(3) // enough objects for a relist to drop most of them and keep one
+	}
 	// writers alternate between distinguishable complete states; every written
 	// version is unique so that each read is attributable to one write
 	ver := 1
@@ -152,11 +155,22 @@ func genC15(g GenCtx) interface{} {
 				ver++
 				return world.Spec{NS: k[0], Name: k[1], RV: strconv.Itoa(ver), Labels: randLabels(rng)}
 			}
+			stale := func() world.Spec {
+				// a list taken before writes the cache has already seen: an older version
+				o := mk()
+				if v := ver - 2 - rng.Intn(4); v > 0 {
+					o.RV = strconv.Itoa(v)
+				}
+				return o
+			}
 			uniq := func() []world.Spec {
 				var l []world.Spec
 				seen := map[string]bool{}
-				for j := rng.Intn(4); j > 0; j-- {
+				for j := rng.Intn(nkeys + 2); j > 0; j-- {
 					s := mk()
+					if rng.Intn(4) == 0 {
+						s = stale()
+					}
 					if !seen[s.Key()] {
 						seen[s.Key()] = true
 						l = append(l, s)
